@@ -3,6 +3,7 @@
 #include "tracing.h"
 #include "resource_tracking.h"
 #include "colors.h"
+#include "builtins_registry.h"
 
 static void emit_context_error(
     const char *title,
@@ -1872,11 +1873,28 @@ static Type check_expression_impl(ASTNode *expr, Environment *env) {
                     }
                 }
             } else {
-                /* For built-ins without param info, just check that arguments are valid expressions */
+                /* Built-ins registered without parameter records: check the arguments against the scalar
+                 * parameter types the builtin registry declares (int, float, bool, string).  Polymorphic
+                 * positions are TYPE_UNKNOWN in the registry and stay unchecked. */
+                const BuiltinEntry *be = builtin_find(expr->as.call.name);
+                if (be && (strcmp(be->name, "abs") == 0 || strcmp(be->name, "min") == 0 || strcmp(be->name, "max") == 0)) {
+                    be = NULL;  /* numeric: int and float are both accepted */
+                }
                 for (int i = 0; i < expr->as.call.arg_count; i++) {
-                    check_expression(expr->as.call.args[i], env);
+                    Type arg_type = check_expression(expr->as.call.args[i], env);
+                    if (be && i < 4 && i < (int)be->arity) {
+                        Type want = be->param_types[i];
+                        bool scalar = (want == TYPE_INT || want == TYPE_FLOAT || want == TYPE_BOOL || want == TYPE_STRING);
+                        bool known = (arg_type == TYPE_INT || arg_type == TYPE_FLOAT || arg_type == TYPE_BOOL || arg_type == TYPE_STRING);
+                        if (scalar && known && !types_match(arg_type, want)) {
+                            tc_expr_error("Error at line %d, column %d: Argument %d of '%s' expects %s, got %s\n",
+                                    expr->as.call.args[i]->line, expr->as.call.args[i]->column, i + 1,
+                                    expr->as.call.name, type_to_string(want), type_to_string(arg_type));
+                        }
+                    }
                 }
             }
+
 
             /* Special handling for array operations that need element type inference */
             if (strcmp(expr->as.call.name, "at") == 0 || strcmp(expr->as.call.name, "array_get") == 0) {
